@@ -114,3 +114,74 @@ package core
 //@ func NewObjectStream results (os, err)
 //@   property C02
 //@   ensures well_formed: !err ==> os.first >= 0 && os.n >= 0
+
+// ---- C02: the document parser makes progress or stops ----
+//
+// lexRem is the (abstract) amount of input the lexer has not consumed yet.  A token "weighs" 1 unless it is
+// absent or the end-of-file token; the parser measure counts the unread input three times plus the two buffered
+// tokens, so that every shift of the token window (nextToken) decreases it unless both buffered tokens are
+// already weightless - and in that state every loop of the parser stops.
+//@ spec abstract func lexRem(l *Lexer) int
+//@ spec func tokW(t *Token) int = (isnil(t) || t.Type == TokenEOF) ? 0 : 1
+//@ spec func pM(p *Parser) int = 3 * lexRem(p.lexer) + 2 * tokW(p.peekToken) + tokW(p.currentToken)
+//@ spec func cpinv(p *Parser) bool = !isnil(p.lexer) && lexRem(p.lexer) >= 0
+
+//@ func (*Lexer) NextToken results (tok, err)
+//@   property C02
+//@   flags trusted
+//@   requires lexRem(l) >= 0
+//@   ensures lexRem(l) >= 0 && lexRem(l) <= old(lexRem(l))
+//@   ensures !err ==> !isnil(tok)
+//@   ensures !err && tok.Type != TokenEOF ==> lexRem(l) < old(lexRem(l))
+
+//@ func (*Parser) nextToken results (err)
+//@   property C02
+//@   requires cpinv(p)
+//@   ensures cpinv(p) && pM(p) <= old(pM(p))
+//@   ensures progress: tokW(old(p.currentToken)) + tokW(old(p.peekToken)) > 0 ==> pM(p) < old(pM(p))
+//@   ensures shifted: p.currentToken == old(p.peekToken)
+
+//@ func (*Parser) skipComments results (err)
+//@   property C02
+//@   requires cpinv(p)
+//@   ensures cpinv(p) && pM(p) <= old(pM(p))
+//@   loop 0:
+//@     invariant cpinv(p) && pM(p) <= old(pM(p))
+//@     decreases pM(p)
+
+//@ func (*Parser) ParseObject results (obj, err)
+//@   property C02
+//@   requires cpinv(p)
+//@   decreases pM(p), 1
+//@   ensures cpinv(p) && pM(p) <= old(pM(p))
+//@   ensures progress: !err ==> pM(p) < old(pM(p))
+//@   loop 0:
+//@     invariant 0 <= i && mod(i, 2) == 0 && mod(len(hexStr), 2) == 0 && len(result) == div(len(hexStr), 2) && cpinv(p) && pM(p) <= old(pM(p)) && tokW(p.currentToken) == 1
+//@     decreases len(hexStr) - i
+
+//@ func (*Parser) parseNumber results (obj, err)
+//@   property C02
+//@   requires cpinv(p) && tokW(p.currentToken) == 1
+//@   decreases pM(p), 0
+//@   ensures cpinv(p) && pM(p) <= old(pM(p))
+//@   ensures progress: !err ==> pM(p) < old(pM(p))
+
+//@ func (*Parser) parseArray results (obj, err)
+//@   property C02
+//@   requires cpinv(p) && tokW(p.currentToken) == 1
+//@   decreases pM(p), 0
+//@   ensures cpinv(p) && pM(p) <= old(pM(p))
+//@   ensures progress: !err ==> pM(p) < old(pM(p))
+//@   loop 0:
+//@     invariant cpinv(p) && pM(p) < old(pM(p))
+//@     decreases pM(p)
+
+//@ func (*Parser) parseDict results (obj, err)
+//@   property C02
+//@   requires cpinv(p) && tokW(p.currentToken) == 1
+//@   decreases pM(p), 0
+//@   ensures cpinv(p) && pM(p) <= old(pM(p))
+//@   ensures progress: !err ==> pM(p) < old(pM(p))
+//@   loop 0:
+//@     invariant cpinv(p) && pM(p) < old(pM(p))
+//@     decreases pM(p)
